@@ -10,6 +10,7 @@ pub mod c12;
 pub mod c13;
 pub mod c14;
 pub mod c15;
+pub mod c16;
 pub mod c17;
 #[cfg(rustls_rcgen_verif)]
 pub mod c20;
@@ -30,6 +31,7 @@ pub fn run(prop: &str, tier: &str, replay: Option<&str>) -> i32 {
         "C13" => c13::run(prop, tier, replay),
         "C14" => c14::run(prop, tier, replay),
         "C15" => c15::run(prop, tier, replay),
+        "C16" => c16::run(prop, tier, replay),
         "C17" => c17::run(prop, tier, replay),
         #[cfg(rustls_rcgen_verif)]
         "C20" => c20::run(prop, tier, replay),
